@@ -36,7 +36,16 @@ MANIFEST = {
                 "Raw.lean (prependPtr/appendPtr/assignPtr, mixed histories runX) - raw_no_fault (histories whose raw ranges lie inside the "
                 "block of their variable where they are executed never fault: no out-of-range access, no use of released storage, no "
                 "overlapping memcpy), raw_correct (byte queue with the argument = the queue's bytes where it overlaps them, unspecified "
-                "elsewhere; terminator; attached memory; ledger), raw_arg_accepted, raw_outside_block_faults, runX_extends_run.  "
+                "elsewhere; terminator; attached memory; ledger), raw_arg_accepted, raw_outside_block_faults, runX_extends_run, "
+                "capacity_policy_bound_raw (the capacity bound for mixed histories).  Round 2: backlog_faithful_multi (any number of clients, any "
+                "interleaving of their backlog operations: every client's Buffer exposes exactly ITS unsent suffix and its capacity is bounded by "
+                "ITS OWN high-water mark / wishes - per-variable step_cap_var), client_model_follows_protocol (the client model writeOps/readyOps "
+                "of Client.lean - ClientImpl::write and the write-readiness branch of Server::run - performs only append / removeFront(0 < sent "
+                "<= size) / free).  The REAL backlog code of Server.cpp is executed on every run: harness/buffer_backlog.cpp compiles Server.cpp "
+                "into its translation unit, drives ClientImpl::write and run()'s write-readiness branch of two clients with send() and epoll_wait "
+                "scripted, prints the white-box state of each _sendBuffer; the same lines run on the client model over the Buffer model, and a "
+                "stream-conservation oracle (buffer = bytes written minus bytes send accepted; send is offered the whole backlog; postponed; "
+                "onWrite iff drained; closed iff send failed or accepted nothing) is evaluated on the implementation's output.  "
                 "The model is tied to the current Buffer.hpp on every run: identical op lines are executed by a harness built from the "
                 "current sources (fresh memory poisoned, attached ranges and data arguments handed out as exactly sized heap blocks so that "
                 "ASan sees any access outside them, attached blocks compared with their source after every op) and by the compiled model; "
@@ -50,9 +59,10 @@ MANIFEST = {
                 "size) argument is either memory outside the object's block (modelled by value) or a sub-range of the object's own exposed "
                 "bytes (ops prependsub/appendsub/assignsub - proved; Buffer arguments may be the object itself - proved); or (ops prependraw/appendraw/assignraw, "
                 "PropsRaw) any sub-range of the object's own allocation; a range that is not inside one block (partly outside the "
-                "allocation) is a fault of the model.  capacity_policy_bound is stated for the 21 operations of Model.lean, not for "
-                "the raw operations (tie only).  The Server.cpp lines that use the backlog are not compiled into the harness: "
-                "backlog_faithful is about the Buffer model driven by the protocol those lines follow (scripted backlog streams tie it).  "
+                "allocation) is a fault of the model.  The client model (Client.lean) is a hand translation of Server.cpp:333-362,441-477 tied by the backlog-client "
+                "stream (send and epoll_wait are scripted, the kernel is not involved; every line of the two sites is executed, docs/implcov/C08.txt); "
+                "that every client history expands to an Admissible backlog history is proved per operation (client_model_follows_protocol), the "
+                "composition with backlog_faithful_multi over whole client histories is not stated as one theorem.  "
                 "Attached memory is not changed by the "
                 "caller while attached.  Allocation never fails; usize arithmetic does not wrap (Nat).  size(), capacity(), isEmpty() are modelled (observers_agree) and tied by the `state` "
                 "lines; operator const byte*/byte* is the pointer every observation reads through (tie only).  No theorem is partial.",
@@ -766,9 +776,10 @@ def with_caps(hist, impl_out):
     for k, line in enumerate(hist):
         t = line.split()
         if t and t[0] in ("cw", "cr") and k < len(impl_out):
-            m = re.findall(r"cap=(\d+)", impl_out[k])
-            if len(m) == 2 and int(t[1]) < 2:
-                line = f"{line} cap={m[int(t[1])]}"
+            parts = impl_out[k].split(" | ")
+            m = re.search(r"cap=(\d+)", parts[1 + int(t[1])]) if int(t[1]) < 2 and len(parts) == 3 else None
+            if m:
+                line = f"{line} cap={m.group(1)}"
         if t and t[0] in CAP_OPS and k < len(impl_out) and " @ " in impl_out[k]:
             caps = impl_out[k].split(" @ ")[1].split(" ")
             v = int(t[1])
